@@ -133,4 +133,40 @@ def holdStep (dt : DType F) (held : PVal F) : ParamEvent F → PVal F
 /-- the value held after a history of updates and change requests -/
 def holdRun (dt : DType F) (held : PVal F) (evs : List (ParamEvent F)) : PVal F := evs.foldl (holdStep dt) held
 
+/-! ### `Command.do` (params.py:522-551): the glue around the argument and the result of a command
+
+    if self.argument:
+        if argument is None: raise WrongTypeError(needs an argument)
+        argument = self.argument.import_value(argument); argument = self.argument.validate(argument)
+        res = func(argument)            # func(*argument) for a tuple, func(**argument) for a struct
+    else:
+        if argument is not None: raise WrongTypeError(takes no arguments)
+        res = func()
+    if self.result:
+        return self.result(res)
+    return None
+
+The command function is the driver: a function parameter (what it returns for the argument it is called with). -/
+
+/-- `self.result(res)` if a result type is declared; otherwise the return value is ignored -/
+def commandResult (resT : Option (DType F)) (res : PVal F) : Res F :=
+  match resT with
+  | some dt => call dt res
+  | none => .ok .none
+
+/-- the data of a `do` request: JSON `null` is "no argument" (`argument is None`) -/
+def dataArg : Option (JVal F) → Option (JVal F)
+  | some .null => none
+  | a => a
+
+def commandDo (argT resT : Option (DType F)) (func : Option (PVal F) → PVal F) (data : Option (JVal F)) : Res F :=
+  match argT, dataArg data with
+  | some _, none => .error .wrongType
+  | some adt, some j =>
+    match acceptWire adt j none with
+    | .error e => .error e
+    | .ok a => commandResult resT (func (some a))
+  | none, some _ => .error .wrongType
+  | none, none => commandResult resT (func none)
+
 end Frappy.Datatypes
